@@ -418,18 +418,23 @@ def mpf_cmp (u v : F) : Int :=
     else if u.exp < v.exp then -usign                                     -- :65
     else mpf_cmp_limbs (stripLow u.d) (stripLow v.d) usign                -- :77-86 skip low zeros; :89-107
 
+/-- Steps 2-4 shared by mpf_cmp_ui (cmp_ui.c:51-90, usign = 1) and mpf_cmp_si (cmp_si.c:69-108):
+    |u| against the non-zero one-limb value vv, whose exponent is 1. -/
+def mpf_cmp_limb1 (u : F) (vv : Nat) (usign : Int) : Int :=
+  if u.exp > 1 then usign                                   -- cmp_ui.c:51 / cmp_si.c:69
+  else if u.exp < 1 then -usign                             -- :53 / :71
+  else
+    let usize := u.size.natAbs
+    let ulimb := u.d.getD (usize - 1) 0                     -- :59 / :77
+    if ulimb > vv then usign                                -- :72 / :90
+    else if ulimb < vv then -usign                          -- :74 / :92
+    else if (stripLow u.d).length > 1 then usign else 0     -- :69,:78-90 / :87,:96-108 (usize-1 minus low zero limbs > 0)
+
 /-- mpf_cmp_ui (mpf/cmp_ui.c:25-91, no nails) -/
 def mpf_cmp_ui (u : F) (v : Nat) : Int :=
   if u.size < 0 then -1                                     -- :37
   else if v = 0 then (if u.size ≠ 0 then 1 else 0)          -- :41
-  else if u.exp > 1 then 1                                  -- :51
-  else if u.exp < 1 then -1                                 -- :53
-  else
-    let usize := u.size.toNat
-    let ulimb := u.d.getD (usize - 1) 0                     -- :59
-    if ulimb > v then 1                                     -- :72
-    else if ulimb < v then -1                               -- :74
-    else if (stripLow u.d).length > 1 then 1 else 0         -- :69, :78-90 (usize-1 minus low zero limbs > 0)
+  else mpf_cmp_limb1 u v 1                                  -- :51-90
 
 /-- mpf_cmp_si (mpf/cmp_si.c:26-109, no nails) -/
 def mpf_cmp_si (u : F) (v : Int) : Int :=
@@ -438,15 +443,8 @@ def mpf_cmp_si (u : F) (v : Int) : Int :=
   else if v = 0 then (if u.size ≠ 0 then 1 else 0)          -- :45-47
   else
     let usign : Int := if u.size ≥ 0 then 1 else -1         -- :58
-    let usize := u.size.natAbs                              -- :59
-    let vv := toU64 (if v ≥ 0 then v else -v)               -- :60 ABS(vval), read as (mpir_ui)
-    if u.exp > 1 then usign                                 -- :69
-    else if u.exp < 1 then -usign                           -- :71
-    else
-      let ulimb := u.d.getD (usize - 1) 0                   -- :77
-      if ulimb > vv then usign                              -- :90
-      else if ulimb < vv then -usign                        -- :92
-      else if (stripLow u.d).length > 1 then usign else 0   -- :87, :96-108
+    -- :59 usize = ABS (usize); :60 vval = ABS (vval), read as (mpir_ui) (so LONG_MIN gives 2^63)
+    mpf_cmp_limb1 u (toU64 (if v ≥ 0 then v else -v)) usign   -- :69-108
 
 /-- mpf_cmp_d (mpf/cmp_d.c:31-51).  `none` = __gmp_invalid_operation (NaN). -/
 def mpf_cmp_d (f : F) (d : Nat) : Option Int :=
